@@ -57,6 +57,7 @@ pub async fn deadline_sessions(patience: Duration) -> Option<DeadlineOutcome> {
     let t0 = Instant::now();
     let mut last_poll = Instant::now();
     let mut stalled = false;
+    let mut junk_sent = 0usize;
     let mut connected_pair_sent = false;
     loop {
         tokio::time::sleep(Duration::from_millis(120)).await;
@@ -67,6 +68,15 @@ pub async fn deadline_sessions(patience: Duration) -> Option<DeadlineOutcome> {
             let before = r.ep.started.elapsed().as_millis();
             let (n, failed) = r.poll_timers().await;
             tm[i].ticks += n;
+            // the lone client is not left entirely alone: after its 10th and 25th retransmission (right after the tick, so the
+            // datagram cannot be mistaken for one) somebody sends it a DTLS-looking datagram that means nothing (clear-text
+            // application data).  The deadline counts from the start of the handshake, not from the last datagram.
+            if i == 0 && n > 0 && !failed && ((junk_sent == 0 && tm[0].ticks >= 10) || (junk_sent == 1 && tm[0].ticks >= 25)) {
+                junk_sent += 1;
+                let junk = super::pair::record_bytes(23, (254, 253), 0, 7 + junk_sent as u64, b"still there?");
+                let src = r.ep.sink_addr;
+                let _ = r.inject(&junk, src).await;
+            }
             if failed { tm[i].first_f = Some(r.ep.started.elapsed().as_millis()); }
             else if r.ep.letter() == 'H' { tm[i].last_h = before; }
         }
